@@ -528,7 +528,8 @@ class C16(Cfg):
     facts = [r"^sql\..*\.sqlScan", r"^sql\..*\.(order|limit)$", r"^facts\..*Scan", r"^consts\.scanPageSize"]
     listed = {"D10"}
     rule = ("collections of 0..40 elements (sets, hashes, sorted sets, the keyspace with all five types) built in ascending, descending and random "
-            "order, with interleaved deletes and re-inserts, after a rename and as the destination of a store; each drained twice (cursor fed back "
+            "order, with interleaved deletes and re-inserts, with elements written again, after a rename and as the destination of a store (the build history is replayed by the model; "
+            "the D10 classifier is decided on the rowids the model assigns); each drained twice (cursor fed back "
             "until an empty page; Scanner object) for page sizes {default, 1, 2, 3, n, n+1, negative, random} x six patterns x type filters; "
             "a case is one drain, distinct by (collection dump, request), non-trivial when something matched")
 
@@ -545,6 +546,9 @@ class C16(Cfg):
             return ("violation", "the iteration did not return every matching element exactly once and the rowid order agrees with the index order (no D10)")
         if v.get("M") == "0":
             return ("corr", "model iteration and real iteration disagree")
+        if v.get("B") == "0":
+            return ("corr", "the tables built by the recorded history differ from the tables the model builds (ids, lengths or rowids): "
+                    "the D10 classifier is decided on the model's rowids")
         return None
 
 
@@ -553,23 +557,29 @@ class C07(Cfg):
     audit = ["C07", "C12"]
     tie = ["Facts_rstring", "Facts_rkey", "Facts_rlist", "Facts_rset", "Facts_rhash", "Facts_rzset", "Consts"]
     facts = [r"^wrappers\.", r"^facts\.", r"^consts\.(execTx|dataSource|applySettings|open|new|update|view)"]
-    listed = ALL_API_FINDINGS | {"D14"}
+    listed = ALL_API_FINDINGS | {"D14", "D19"}
     rule = ("random traces through an interposing database/sql driver (Options.DriverName): each operation is first attempted with a storage fault "
             "injected before RW call k (k in 1..6: begin, any statement, commit), then run again without fault; interleaved user transactions of "
             "1..4 operations aborted after any prefix by returned error, panic, commit failure and (every 4th trace) context cancellation; a FAULT "
             "case must report the failure and leave all six tables byte-identical; the steps that follow are judged against model and spec; "
-            "distinct by (fault description, pre-state)")
+            "distinct by (fault description, pre-state); plus, for six ways of naming a database (file, file: URI, mode=rwc, mode=rw, memdb VFS, :memory:), "
+            "always-writing operations attempted inside DB.View and through an OpenRead handle: each must be refused and leave the tables unchanged")
 
     def streams(self, tier, seed, search):
         n = 16
         t, l = (600, 80) if tier == "thorough" else ((160, 70) if search else (70, 70))
-        return [dict(kind="fault", args=["-seed", seed * 1000 + 500 + i, "-traces", t, "-len", l, "-cancel", 4]) for i in range(n)]
+        out = [dict(kind="fault", args=["-seed", seed * 1000 + 500 + i, "-traces", t, "-len", l, "-cancel", 4]) for i in range(n)]
+        # read-only transactions and read-only handles, for every way of naming a database
+        out += [dict(kind="ro", args=["-seed", seed * 1000 + 560 + i, "-traces", 12 if tier == "thorough" else 3]) for i in range(2)]
+        return out
 
     def counts(self, op, v):
         return "R" in v
 
     def judge(self, op, v, mode):
         if "R" in v:      # a FAULT line
+            if "D19" in v["K"] and (v.get("A") == "0" or v.get("R") == "0") and v.get("I") != "0":
+                return None       # listed: View on ':memory:' writes (reported as KNOWN-FINDING)
             if v.get("A") == "0":
                 return ("violation", "a failed operation / aborted transaction changed the tables")
             if v.get("R") == "0":
